@@ -169,8 +169,15 @@ def judge(ctx, s1, s2, tb, fb):
 
     spec = {"kind": "affinity", "g1": s1, "g2": s2, "tb": tb, "fb": fb}
     g1, g2 = geoms.build(s1), geoms.build(s2)
+    if ctx.evaluations % 5 == 0:
+        g1, g2 = geoms.build_derived(s1, ctx.rng), geoms.build_derived(s2, ctx.rng)
     try:
         A.compute_affinity(g1, g2, time_buffer=tb, freq_buffer=fb)
+        if tb > 0 and fb > 0 and ctx.evaluations % 3 == 0:
+            # the same two objects again with other buffers, and then with the first ones: each call is judged on
+            # its own by the postcondition, so anything remembered from an earlier call shows up
+            A.compute_affinity(g1, g2, time_buffer=tb * 5, freq_buffer=fb * 3)
+            A.compute_affinity(g1, g2, time_buffer=tb, freq_buffer=fb)
     except Exception as e:
         ctx.violate_exc("raises", f"raises:{type(e).__name__}", e, spec=spec)
         return
